@@ -151,7 +151,7 @@ func init() {
 			"the fragmenting io.Reader never crosses a cut point. non-trivial = the stream is actually delivered in >= 2 pieces or with data+EOF; " +
 			"distinct by op text",
 		Gen: func(r *Rng, tier string, emit func(Case)) {
-			n := 150
+			n := 100
 			if tier == "thorough" {
 				n = 4000
 			}
